@@ -121,6 +121,15 @@ def sim_histories(name, sensor, raw, simcls, k, e, lo, hi, res, tier):
                 if sim.getDistance() != x:
                     res.violation(f"sim-getDistance:{name}", f"{name}: helper.getDistance() = {sim.getDistance()!r} after setDistance({x})", rp)
                     break
+            else:
+                # the analog input is then driven directly (another simulation writer): the helper still reports the distance that was set
+                x = seq[-1][1]
+                for v in (1.0, 0.3):
+                    raw.setVoltage(v)
+                    res.checks += 1
+                    if sim.getDistance() != x:
+                        res.violation(f"sim-getDistance:{name}:after-external-voltage", f"{name}: after {list(seq)} and an external voltage {v} helper.getDistance() = {sim.getDistance()!r}, the distance set was {x}", dict(engine="inputs", sensor=name, kind="sim-history", history=[list(o) for o in seq] + [["v", v]]))
+                        break
     # grid of distances on a fresh helper each
     n = 4001 if tier == "quick" else 40001
     for i in range(n):
